@@ -8,7 +8,14 @@ useractions.UserActions._pick_col_name (imported from common.REPO), evaluated ov
     (so the suffixing paths are forced), plus fixed sets;
   * every batch of <= 3 names over a 14-name pool for pick_col_ident_list;
   * an engine-level invariant on tableId / colId after seeded histories that rename and add
-    tables and columns with awkward names.
+    tables and columns with awkward names, create summary tables over columns whose ids join to the
+    same encoded name ("A","B" / "A_B" / "a_b"), rename several tables in one metadata batch, and
+    must never die on an id the engine picked itself ("... already exists");
+  * every pair of sibling summary tables (group-by sets of <= 2 columns over 3 small column pools
+    chosen so that encoded summary-table names coincide, exactly or ignoring case), followed by
+    renames of the source table / of group-by columns / of two tables in one batch: the ids picked
+    for all tables touched by ONE rename must be valid, pairwise distinct ignoring case, and the
+    rename must succeed.
 The postcondition is the property statement; the reading of 'already valid' is DESIGN.md 5/C21
 (ids are ASCII by design)."""
 import itertools
@@ -305,6 +312,149 @@ def _call_pcn(a):
 # engine level: ids in the metadata after histories
 # ---------------------------------------------------------------------------------------------
 
+def doc_id_failures(e):
+  """-> [(clause, detail)]: every tableId / colId recorded in the metadata is a valid id, ids are
+  pairwise distinct ignoring case among tables and among the columns of one table, and the
+  metadata's table ids are exactly the engine's user tables."""
+  from vlib.rtc import eng
+  tables = eng.meta_records(e, "_grist_Tables")
+  columns = eng.meta_records(e, "_grist_Tables_column")
+  out = []
+  tids = [t["tableId"] for t in tables]
+  src_of = {t["tableId"]: t.get("summarySourceTable") for t in tables}
+  for i, t in enumerate(tids):
+    for c, d in check_one(None, [x for j, x in enumerate(tids) if j != i and isinstance(x, str)], t, True):
+      clash = [x for j, x in enumerate(tids) if j != i and isinstance(x, str) and isinstance(t, str)
+               and ci_equal(x, t)]
+      sib = bool(clash) and bool(src_of.get(t)) and any(src_of.get(x) == src_of.get(t) for x in clash)
+      out.append((c, {"what": "tableId", "id": t, "why": d, "all": tids,
+                      "sibling_summary_tables": sib}))
+  if sorted(x for x in tids if isinstance(x, str)) != eng.user_tables(e):
+    out.append(("C21.metadata_ids_are_engine_tables",
+                {"what": "tableId", "metadata": tids, "engine": eng.user_tables(e)}))
+  for t in tables:
+    cids = [c["colId"] for c in columns if c["parentId"] == t["id"]]
+    for i, cid in enumerate(cids):
+      others = [x for j, x in enumerate(cids) if j != i and isinstance(x, str)] + ["id"]
+      for c, d in check_one(None, others, cid, False):
+        # is the clashing id a formula column that has same-named sister columns in other summary
+        # tables of the same source table (those are renamed together)?
+        sister = False
+        src = t.get("summarySourceTable")
+        if src and c == "C21.differs_from_existing_ci":
+          sibs = [x["id"] for x in tables if x.get("summarySourceTable") == src and x["id"] != t["id"]]
+          clash = [x for x in cids if isinstance(x, str) and ci_equal(x, cid)]
+          sister = any(cc["parentId"] in sibs and cc["isFormula"] and cc["colId"] in clash
+                       for cc in columns)
+        out.append((c, {"what": "colId", "table": t["tableId"], "id": cid, "why": d, "all": cids,
+                        "summary_table": bool(src), "sister_formula_column": sister}))
+  return out
+
+
+def already_exists_failure(exc):
+  """The engine's doc actions assert that the id they are given is unused ('Table X already
+  exists' / 'Column X already exists in T').  User actions never pass a requested name through
+  unchanged: every id reaching a doc action was produced by one of the pickers, so this assertion
+  failing means a picker returned an id that was in use (or two ids picked in one batch are
+  equal).  -> (clause, detail) or None."""
+  if exc is None:
+    return None
+  m = re.search(r"(Table|Column) (\S+) already exists", str(exc))
+  if not m:
+    return None
+  return ("C21.picked_id_is_unused",
+          {"what": "tableId" if m.group(1) == "Table" else "colId", "id": m.group(2),
+           "raised": repr(exc)[:300]})
+
+
+# ---------------------------------------------------------------------------------------------
+# sibling summary tables: ids picked in ONE batch (exhaustive over a small stated space)
+# ---------------------------------------------------------------------------------------------
+
+# column pools in which '_'.join(sorted(group-by ids)) of different group-by sets coincide exactly
+# (A,B / A_B), ignoring case (A,B / a_b ; a,c / A_c), or not at all (controls)
+SIB_POOLS = (("A", "B", "A_B"), ("A", "B", "a_b"), ("a", "c", "A_c", "D"))
+SIB_OPS = ("rename_source", "rename_source_case_only", "rename_groupby_col", "rename_two_tables_one_batch",
+           "rename_source_via_metadata")
+
+
+def sibling_cases(tier, seed):
+  for pi, pool in enumerate(SIB_POOLS):
+    subsets = [g for k in (1, 2) for g in itertools.combinations(pool, k)]
+    groups = list(itertools.combinations(subsets, 2))
+    if tier == "thorough":
+      groups += list(itertools.combinations(subsets, 3))
+    for gs in groups:
+      for op in SIB_OPS:
+        if op == "rename_groupby_col":
+          for col in sorted(set(c for g in gs for c in g)):
+            for new in ("Q", "b"):
+              yield {"pool": pi, "groupbys": [list(g) for g in gs], "op": op, "col": col, "new": new}
+        else:
+          yield {"pool": pi, "groupbys": [list(g) for g in gs], "op": op}
+
+
+def _call_siblings(a):
+  """Builds Src(<pool>) + Other(x) with one summary table of Src per group-by set, then applies the
+  rename `op` through the real engine and examines every id of the document."""
+  from vlib.rtc import eng
+  pool = SIB_POOLS[a["pool"]]
+  e = eng.new_engine()
+  col = lambda c: {"id": c, "type": "Text", "isFormula": False, "formula": ""}
+  eng.apply(e, [["AddTable", "Src", [col(c) for c in pool]],
+                ["AddTable", "Other", [col("x")]],
+                ["BulkAddRecord", "Src", [None, None], {pool[0]: ["u", "v"], pool[1]: ["u", "u"]}]])
+  got = [c[0] for c in eng.schema_columns(e, "Src")]
+  if not all(c in got for c in pool):
+    return {"fails": [("C21.harness", "pool %r became %r" % (pool, got))], "ids": None}
+  src = eng.table_ref(e, "Src")
+  for g in a["groupbys"]:
+    eng.apply(e, [["CreateViewSection", src, 0, "record", [eng.col_ref(e, "Src", c) for c in g], None]])
+  fails = [(c, "after building the document: %r" % (d,)) for c, d in doc_id_failures(e)]
+  before = [t["tableId"] for t in eng.meta_records(e, "_grist_Tables")]
+  want = None
+  if a["op"] == "rename_source":
+    bundle, want = [["RenameTable", "Src", "Dst"]], {src: "Dst"}
+  elif a["op"] == "rename_source_case_only":
+    bundle, want = [["RenameTable", "Src", "SRC"]], {src: "SRC"}
+  elif a["op"] == "rename_source_via_metadata":
+    bundle, want = [["UpdateRecord", "_grist_Tables", src, {"tableId": "Dst"}]], {src: "Dst"}
+  elif a["op"] == "rename_two_tables_one_batch":
+    bundle = [["BulkUpdateRecord", "_grist_Tables", [src, eng.table_ref(e, "Other")],
+               {"tableId": ["Dst", "dst"]}]]
+    want = {src: "Dst"}
+  else:
+    bundle = [["RenameColumn", "Src", a["col"], a["new"]]]
+  exc = None
+  try:
+    eng.apply(e, bundle)
+  except Exception as ex:
+    exc = ex
+  after = {t["id"]: t["tableId"] for t in eng.meta_records(e, "_grist_Tables")}
+  pre = "%r on tables %r -> %r: " % (bundle, before, sorted(after.values()))
+  if exc is not None:
+    ae = already_exists_failure(exc)
+    if ae: fails.append((ae[0], pre + repr(ae[1])))
+    fails.append(("C21.total", pre + "a valid rename raised %r" % (exc,)))
+  else:
+    for ref, name in (want or {}).items():
+      if after.get(ref) != name:
+        fails.append(("C21.valid_unused_kept", pre + "valid unused table id %r was changed to %r"
+                      % (name, after.get(ref))))
+  fails += [(c, pre + repr(d)) for c, d in doc_id_failures(e)]
+  return {"fails": fails, "ids": sorted(after.values()), "raised": repr(exc) if exc else None,
+          "renamed": sorted(set(after.values()) - set(before))}
+
+
+def _classify_siblings(a, clause, detail):
+  return "sibling-summary-tables:%s:%s" % (a.get("op"), clause.split(".", 1)[1])
+
+
+def _siblings_nontrivial(a, r, exc):
+  """non-trivial = the one rename changed the ids of at least two tables (a batch of picks)."""
+  return r is not None and len(r.get("renamed") or []) >= 2
+
+
 def _monitor_base():
   from vlib.rtc import explore
   return explore.Monitor
@@ -313,7 +463,28 @@ def _monitor_base():
 AWKWARD = ["n", "N", "s", "S", "class", "Class", "None", "none", "id", "ID", "1a", "_u", "é", "E", "e",
            "New Col", "new_col", "NEW COL", "", "a", "A", "a2", "A2", "manualSort", "MANUALSORT", "group",
            "Table1", "table1", "if", "If", KELVIN, "k", "ß", "x y", "x_y", "X  Y", "True", "T", "c",
-           "cat", "CAT", "Tags", "count", "COUNT"]
+           "cat", "CAT", "Tags", "count", "COUNT", "A_B", "a_b", "B", "b", "A_b", "B_C", "n_s", "cat_n"]
+
+
+def _seed_docs():
+  """Seed document with sibling summary tables whose encoded names coincide: Src(A, B, A_B, C) with
+  summaries by {A,B} and {A_B}; Low(a, c, A_c) with summaries by {a,c} and {A_c} (coincide ignoring
+  case)."""
+  from vlib.rtc import gen
+  col = lambda c: {"id": c, "type": "Text", "isFormula": False, "formula": ""}
+  gen.SEEDS["c21_joined"] = [
+    [["AddTable", "Src", [col("A"), col("B"), col("A_B"), col("C")]],
+     ["AddTable", "Low", [col("a"), col("c"), col("A_c")]]],
+    [["BulkAddRecord", "Src", [None, None, None], {"A": ["x", "y", "x"], "B": ["u", "u", "v"], "A_B": ["1", "2", "1"]}],
+     ["BulkAddRecord", "Low", [None, None], {"a": ["x", "y"], "c": ["u", "u"]}]],
+    [["CreateViewSection", 1, 0, "record", [2, 3], None]],        # Src by A, B
+    [["CreateViewSection", 1, 0, "record", [4], None]],           # Src by A_B
+    [["CreateViewSection", 2, 0, "record", [7, 8], None]],        # Low by a, c
+    [["CreateViewSection", 2, 0, "record", [9], None]],           # Low by A_c
+  ]
+
+
+_seed_docs()
 
 
 class IdentMonitor(_monitor_base()):
@@ -321,15 +492,41 @@ class IdentMonitor(_monitor_base()):
   (C21.valid_identifier / not_keyword / no_leading_underscore_digit / table_capitalised) and ids are
   pairwise distinct ignoring case among tables, and among the columns of one table
   (C21.differs_from_existing_ci)."""
-  seeds = ("basic", "refs", "summary")
+  seeds = ("basic", "refs", "summary", "c21_joined")
   length = 6
 
   def gen_bundle(self, st, e, g):
     from vlib.rtc import eng
     rng = g.rng
     tabs = eng.user_tables(e)
-    data = [t for t in tabs if "_summary_" not in t]
+    summ = set(t["tableId"] for t in eng.meta_records(e, "_grist_Tables") if t.get("summarySourceTable"))
+    data = [t for t in tabs if t not in summ]
     r = rng.random()
+    r2 = rng.random()
+    if data and r2 < 0.10:
+      # a summary table of a data table by 1-2 of its columns (sibling summary tables whose encoded
+      # names join to the same string are what the batch renames below have to keep apart)
+      t = rng.choice(data)
+      cs = [c[0] for c in eng.schema_columns(e, t) if c[0] not in ("id", "manualSort") and not c[2]]
+      if cs:
+        refs = [eng.col_ref(e, t, c) for c in rng.sample(cs, min(len(cs), rng.randint(1, 2)))]
+        if all(refs):
+          return [["CreateViewSection", eng.table_ref(e, t), 0, "record", refs, None]]
+    elif len(data) >= 2 and r2 < 0.16:
+      # several tables renamed by ONE metadata action (ids picked in one batch)
+      ts = rng.sample(data, 2)
+      refs = [eng.table_ref(e, t) for t in ts]
+      n1 = rng.choice(AWKWARD)
+      n2 = rng.choice([n1, n1.swapcase(), n1.upper(), rng.choice(AWKWARD), ts[0]])
+      if all(refs):
+        return [["BulkUpdateRecord", "_grist_Tables", refs, {"tableId": [n1, n2]}]]
+    elif data and r2 < 0.20:
+      # a source table that has summary tables is renamed (all its summary tables get new ids)
+      recs = eng.meta_records(e, "_grist_Tables")
+      has = set(t["summarySourceTable"] for t in recs if t.get("summarySourceTable"))
+      srcs = [t["tableId"] for t in recs if t["id"] in has and t["tableId"] in data]
+      if srcs:
+        return [["RenameTable", rng.choice(srcs), rng.choice(AWKWARD + ["Dst", "Src", "SRC"])]]
     if not data or r < 0.15:
       if r < 0.08 and data:
         return g.bundle(e)
@@ -364,35 +561,19 @@ class IdentMonitor(_monitor_base()):
     return g.bundle(e)
 
   def after(self, st, e, bundle, group, exc):
-    from vlib.rtc import eng
-    tables = eng.meta_records(e, "_grist_Tables")
-    columns = eng.meta_records(e, "_grist_Tables_column")
     out = []
-    tids = [t["tableId"] for t in tables]
-    for i, t in enumerate(tids):
-      for c, d in check_one(None, [x for j, x in enumerate(tids) if j != i and isinstance(x, str)], t, True):
-        out.append((c, {"what": "tableId", "id": t, "why": d, "all": tids}))
-    for t in tables:
-      cids = [c["colId"] for c in columns if c["parentId"] == t["id"]]
-      for i, cid in enumerate(cids):
-        others = [x for j, x in enumerate(cids) if j != i and isinstance(x, str)] + ["id"]
-        for c, d in check_one(None, others, cid, False):
-          # is the clashing id a formula column that has same-named sister columns in other summary
-          # tables of the same source table (those are renamed together)?
-          sister = False
-          src = t.get("summarySourceTable")
-          if src and c == "C21.differs_from_existing_ci":
-            sibs = [x["id"] for x in tables if x.get("summarySourceTable") == src and x["id"] != t["id"]]
-            clash = [x for x in cids if isinstance(x, str) and ci_equal(x, cid)]
-            sister = any(cc["parentId"] in sibs and cc["isFormula"] and cc["colId"] in clash
-                         for cc in columns)
-          out.append((c, {"what": "colId", "table": t["tableId"], "id": cid, "why": d, "all": cids,
-                          "summary_table": bool(src), "sister_formula_column": sister}))
+    ae = already_exists_failure(exc)
+    if ae:
+      ae[1]["actions"] = sorted(set(str(a[0]) for a in bundle))
+      out.append(ae)
+    out += doc_id_failures(e)
     return out[:1]
 
   def classify(self, clause, detail, bundle, history):
     if detail.get("summary_table") and detail.get("sister_formula_column"):
       return "engine:colId:summary-sister-column-renamed-onto-sibling-table-id"
+    if clause == "C21.picked_id_is_unused":
+      return "engine:%s:picked-id-already-exists:%s" % (detail.get("what"), "+".join(detail.get("actions") or []))
     return "engine:%s:%s" % (detail.get("what"), clause.split(".", 1)[1])
 
   def nontrivial(self, st, bundle, group, exc):
@@ -417,6 +598,11 @@ def main():
     "in a batch, a valid unused name must be kept unless another id of the same batch took it",
     "frame clause C21.avoid_untouched (the caller's avoid set is not modified) comes from the code's "
     "call sites, not from the statement",
+    "engine level, C21.picked_id_is_unused: every id that reaches a schema doc action was produced by "
+    "a picker (user actions never pass a requested name through), so a bundle dying with the doc "
+    "action's own assertion 'Table/Column X already exists' means a picked id was in use",
+    "sibling-summary contract, C21.total: the renames applied there are valid requests (existing "
+    "non-summary table / existing column, str name), so they must not raise",
     "_pick_col_name is called with namespaces offering .columns[*].colId / .summaryTables[*].columns "
     "/ .summarySourceTable=None (a non-summary table); summary tables are covered at engine level",
     common.SHIM_ASSUMPTION,
@@ -426,7 +612,8 @@ def main():
     "one evaluation = one requested name given to one real picker with 4 fixed avoid sets, the "
     "default argument, and a chain of 4 avoid sets built from the picker's previous answers in "
     "swapped/lower/upper case (9 calls), every answer checked; or one batch given to "
-    "pick_col_ident_list; or one _pick_col_name call; or one engine bundle followed by the metadata "
+    "pick_col_ident_list; or one _pick_col_name call; or one document with sibling summary tables + "
+    "one rename; or one engine bundle followed by the metadata "
     "id invariant. Non-trivial = the requested name is not already a valid id (single), the batch "
     "has >= 2 names (batch), the request is not already valid and unused (_pick_col_name), the "
     "bundle stored an AddTable/AddColumn/Rename* action or raised (engine); distinct by repr.")
@@ -438,7 +625,18 @@ def main():
     "random_unicode": 2500 if tier == "quick" else 20000,
     "batches": "all batches of <= 3 names over %d names x %d avoid sets + %d random batches of 2-6 related names"
                % (len(BATCH_POOL), len(BATCH_AVOID), 3000 if tier == "quick" else 60000),
-    "pick_col_name": "%d tables x %d names x old ids x 4 avoid_extra" % (len(PCN_TABLES), len(PCN_NAMES))}
+    "pick_col_name": "%d tables x %d names x old ids x 4 avoid_extra" % (len(PCN_TABLES), len(PCN_NAMES)),
+    "sibling_summary_tables": "column pools %r; every %s of distinct group-by sets of 1-2 columns of a pool "
+                              "as summary tables of one source table; then one of: RenameTable source "
+                              "(new name / case-only), UpdateRecord _grist_Tables tableId, BulkUpdateRecord "
+                              "_grist_Tables renaming the source and a second table to 'Dst','dst', "
+                              "RenameColumn of each group-by column to 'Q' / 'b'"
+                              % (SIB_POOLS, "pair" if tier == "quick" else "pair and triple"),
+    "engine": "seed docs basic, refs, summary, c21_joined (two source tables with sibling summary tables "
+              "whose encoded names coincide exactly / ignoring case); histories of 6 bundles: awkward "
+              "AddTable / AddColumn / RenameColumn / RenameTable / metadata colId, label, tableId updates, "
+              "summary tables by 1-2 random columns, two tables renamed by one _grist_Tables action, "
+              "renames of source tables that have summary tables"}
 
   single = fn.FnContract(
     name="identifiers.pick_col_ident / pick_table_ident", call=_call_chain,
@@ -459,9 +657,18 @@ def main():
     nontrivial=lambda a, r, exc: r is not None and r.get("res") != a["col_id"])
   fn.check(rep, pcn, pcn_cases, exhaustive=False, limit_quick_s=6)
 
+  sib = fn.FnContract(
+    name="Engine.apply_user_actions (renames that re-pick the ids of sibling summary tables in one batch)",
+    call=_call_siblings,
+    ensures={c: _clause(c) for c in CLAUSES + ("C21.picked_id_is_unused", "C21.metadata_ids_are_engine_tables",
+                                               "C21.harness")},
+    classify=_classify_siblings, nontrivial=_siblings_nontrivial)
+  fn.check(rep, sib, sibling_cases, exhaustive=True, limit_quick_s=40, limit_thorough_s=400,
+           warm_engine=True)
+
   from vlib.rtc import explore
-  explore.explore(rep, "checks.C21", "IdentMonitor", n_quick=16, n_thorough=3000,
-                  budget_quick_s=6, budget_thorough_s=300)
+  explore.explore(rep, "checks.C21", "IdentMonitor", n_quick=32, n_thorough=4000,
+                  budget_quick_s=8, budget_thorough_s=300)
   # directed histories (fixed; found by the thorough tier, kept so that every run re-examines them)
   directed = [("summary", [[["RenameColumn", "A_summary", "count", "CAT"]]]),
               ("summary", [[["RenameColumn", "A", "tags", "New Col"]],
@@ -482,7 +689,9 @@ def main():
   rep.coverage["exhaustive"] = False
   rep.coverage["exhaustive_part"] = ("the small-string space, the keyword spellings, the <=3 batches "
                                      "and the _pick_col_name grid are enumerated completely; random "
-                                     "Unicode strings, random batches and engine histories are seeded samples")
+                                     "Unicode strings, random batches and engine histories are seeded samples; the "
+                                     "sibling-summary-table space stated in bound.sibling_summary_tables is "
+                                     "enumerated completely")
   return rep.finish()
 
 
